@@ -712,7 +712,8 @@ def _compute_orthogonal_iterations(
         return matrix_eigenvalue_decomposition(A)[1]
 
     # Perform orthogonal/simultaneous iterations (QR algorithm).
-    Q = eigenvectors_estimate
+    # NOTE: The estimate may be stored in a different dtype than A (e.g. bf16 eigenvectors with fp32 factor matrices).
+    Q = eigenvectors_estimate.to(dtype=A.dtype)
     iteration = 0
     error = torch.inf
     while iteration < max_iterations and error > tolerance:
